@@ -331,7 +331,19 @@ fn child_main(path: &str) {
 enum ChildEnd {
     Obs(Obs),
     Crashed(String),
-    TimedOut,
+    /// killed by the wall-clock watchdog; `cpu_ms` = CPU time (user+system, from /proc) the child had
+    /// consumed at that moment — a counter, not a clock: a starved child shows little CPU
+    TimedOut { cpu_ms: u64 },
+}
+
+fn proc_cpu_ms(pid: u32) -> u64 {
+    let Ok(s) = std::fs::read_to_string(format!("/proc/{pid}/stat")) else { return 0 };
+    // fields after the parenthesised command name: state is field 3; utime = 14, stime = 15
+    let Some(rest) = s.rsplit_once(')').map(|x| x.1) else { return 0 };
+    let f: Vec<&str> = rest.split_whitespace().collect();
+    let ticks: u64 = f.get(11).and_then(|x| x.parse::<u64>().ok()).unwrap_or(0) + f.get(12).and_then(|x| x.parse::<u64>().ok()).unwrap_or(0);
+    let hz = unsafe { libc::sysconf(libc::_SC_CLK_TCK) }.max(1) as u64;
+    ticks * 1000 / hz
 }
 
 /// Runs `cases` in child processes (one child per shard; a crash loses only the case that was running).
@@ -360,10 +372,13 @@ fn run_in_children(cases: &[Case], shard: usize, timeout_s: u64) -> BTreeMap<usi
             let d2 = done.clone();
             let killed = Arc::new(std::sync::atomic::AtomicBool::new(false));
             let k2 = killed.clone();
+            let cpu_at_kill = Arc::new(std::sync::atomic::AtomicU64::new(0));
+            let c2 = cpu_at_kill.clone();
             let wd = std::thread::spawn(move || {
                 let t0 = std::time::Instant::now();
                 while !d2.load(Ordering::Relaxed) {
                     if t0.elapsed() > limit {
+                        c2.store(proc_cpu_ms(pid), Ordering::Relaxed);
                         k2.store(true, Ordering::Relaxed);
                         unsafe {
                             libc::kill(pid as i32, libc::SIGKILL);
@@ -392,7 +407,7 @@ fn run_in_children(cases: &[Case], shard: usize, timeout_s: u64) -> BTreeMap<usi
             rest.retain(|c| !finished.contains(&c.id));
             if let Some(id) = running {
                 let end = if killed.load(Ordering::Relaxed) {
-                    ChildEnd::TimedOut
+                    ChildEnd::TimedOut { cpu_ms: cpu_at_kill.load(Ordering::Relaxed) }
                 } else {
                     ChildEnd::Crashed(format!("{:?}", status))
                 };
@@ -854,7 +869,7 @@ fn main() {
         let sig_base = format!("{}{}|{}|{}", gc, if c.bypass { "+hash-bypass" } else { "" }, size_class(c.n), rel_class(c));
         match obs.get(&c.id) {
             None => run.inconclusive(format!("no observation for case {} ({})", c.id, c.family)),
-            Some(ChildEnd::TimedOut) => {
+            Some(ChildEnd::TimedOut { .. }) => {
                 run.inconclusive(format!("watchdog killed the child on a {} graph (n={}, family {})", gc, c.n, c.family));
                 run.sample("watchdog", 2, case_json(c));
             }
@@ -940,7 +955,20 @@ fn main() {
                 }
                 Some(ChildEnd::Obs(o)) => run.inconclusive(format!("craft error in scaling case {} n={}: {:?}", c.family, c.n, o.craft_error)),
                 Some(ChildEnd::Crashed(st)) => run.violation(&format!("dag|{}|crash", c.family), &format!("child died ({st}) on an acyclic graph of {} manifests", c.n), json!({"case": case_json(c)})),
-                Some(ChildEnd::TimedOut) => run.inconclusive(format!("watchdog on scaling case {} n={}", c.family, c.n)),
+                Some(ChildEnd::TimedOut { cpu_ms }) => {
+                    // The child ran alone.  If it burnt >= 30 s of CPU (it was running, not starved) while the
+                    // previous point of the same family (about half the size) finished in less than 1/25 of that,
+                    // growth is far beyond the polynomial bound (4.5x per doubling): judged on CPU counters only.
+                    let prev = table.get(&c.family).and_then(|rows| rows.iter().filter(|r| r.0 < c.n).max_by_key(|r| r.0)).cloned();
+                    match prev {
+                        Some(p) if *cpu_ms >= 30_000 && p.3.max(1) * 25 < *cpu_ms && c.n <= p.0 * 2 + 1 => run.violation(
+                            &format!("dag|{}|cpu-superpolynomial", c.family),
+                            &format!("acyclic graph of {} manifests: child consumed {} ms CPU without finishing, the same family with {} manifests took {} ms CPU", c.n, cpu_ms, p.0, p.3),
+                            json!({"case": case_json(c), "cpu_ms_at_kill": cpu_ms, "previous": {"n": p.0, "cpu_ms": p.3}}),
+                        ),
+                        _ => run.inconclusive(format!("watchdog on scaling case {} n={} (cpu {} ms)", c.family, c.n, cpu_ms)),
+                    }
+                }
                 None => run.inconclusive(format!("no observation for scaling case {} n={}", c.family, c.n)),
             }
         }
